@@ -103,6 +103,17 @@ def handle (req : Sexp) : Sexp :=
       let (e, w) := introspect beh output creatable { file := file, stdout := out }
       .list [.atom "result", Sexp.mkNat e.code, optS w.file, .str w.stdout]
     | _, _, _, _ => bad "introspect"
+  | .list [.atom "introspect-main", .str loc, hs, auth, o, u, beh, output, creatable, file, .str out] =>
+    match Decode.strList hs, Decode.optStr auth, o.asBool?, u.asBool?, decodeBehaviour beh, output.asBool?, creatable.asBool?, Decode.optStr file with
+    | some hs, some auth, some o, some u, some beh, some output, some creatable, some file =>
+      let run := introspectMain { location := loc, output := output, authorization := auth, headers := hs, isOneOf := o, specifyByUrl := u }
+        beh creatable { file := file, stdout := out }
+      .list [.atom "run", exitSexp run.exit, Sexp.mkNat run.exit.code,
+        (match run.request with
+         | none => .list [.atom "none"]
+         | some r => .list [.atom "request", .str r.method, .str r.url, .list (r.headers.map fun nv => .list [.str nv.1, .str nv.2]), r.body.toSexp]),
+        optS run.world.file, .str run.world.stdout]
+    | _, _, _, _, _, _, _, _ => bad "introspect-main"
   | .list [.atom "pretty", j] =>
     match Json.ofSexp j with
     | some j => .list [.atom "ok", .str (pretty j)]
